@@ -858,4 +858,112 @@ Section P.
       + eapply IH; eassumption.
   Qed.
 
+
+  (* ---------- the fuel is not observable once it exceeds the depth of the link directory tree ---------- *)
+  Definition no_layout_links (m : amap (amap env)) : Prop :=
+    forall s links k e, In (s, links) m -> In (k, e) links -> env_is_layout e = false.
+
+  Lemma sub_links_no_layout rec L path d inter sname links w tr :
+    (forall k e, In (k, e) links -> env_is_layout e = false) ->
+    sub_links rec L path d inter sname links w tr = (Ok links, w, tr).
+  Proof.
+    induction links as [|[k e] r IH]; intro H; simpl; [reflexivity|].
+    rewrite (H k e (or_introl eq_refl)). rewrite IH by (intros k' e' Hin; apply (H k' e'); right; exact Hin). reflexivity.
+  Qed.
+
+  Lemma sub_steps_no_layout rec L path d inter m w tr :
+    no_layout_links m -> sub_steps rec L path d inter m w tr = (Ok m, w, tr).
+  Proof.
+    revert w tr. induction m as [|[sn links] r IH]; intros w tr H; simpl; [reflexivity|].
+    rewrite sub_links_no_layout by (intros k e Hin; apply (H sn links k e); [left; reflexivity | exact Hin]).
+    rewrite IH by (intros s' l' k e H1 H2; apply (H s' l' k e); [right; exact H1 | exact H2]). reflexivity.
+  Qed.
+
+  (* two verifiers that agree on every sub-directory of d resolve the sublayouts of d alike *)
+  Definition agree_below (rec1 rec2 : verifier) (d : linkdir) : Prop :=
+    forall dirn w p e ks sn ps it, rec1 w p (lookup_subdir d dirn) e ks sn ps it = rec2 w p (lookup_subdir d dirn) e ks sn ps it.
+
+  Lemma sub_links_ext rec1 rec2 L path d inter sname links w tr :
+    agree_below rec1 rec2 d ->
+    sub_links rec1 L path d inter sname links w tr = sub_links rec2 L path d inter sname links w tr.
+  Proof.
+    intro Hag. revert w tr. induction links as [|[k e] r IH]; intros w tr; simpl; [reflexivity|].
+    destruct (env_is_layout e).
+    - rewrite (Hag (sublayout_dir sname k)).
+      destruct (rec2 w _ _ e _ sname [] inter) as [[[summary|c|p] w1] tr1]; try reflexivity. rewrite IH. reflexivity.
+    - rewrite IH. reflexivity.
+  Qed.
+
+  Lemma sub_steps_ext rec1 rec2 L path d inter m w tr :
+    agree_below rec1 rec2 d ->
+    sub_steps rec1 L path d inter m w tr = sub_steps rec2 L path d inter m w tr.
+  Proof.
+    intro Hag. revert w tr. induction m as [|[sn links] r IH]; intros w tr; simpl; [reflexivity|].
+    rewrite (sub_links_ext rec1 rec2 _ _ _ _ _ _ _ _ Hag).
+    destruct (sub_links rec2 L path d inter sn links w tr) as [[[links'|c|p] w1] tr1]; try reflexivity. rewrite IH. reflexivity.
+  Qed.
+
+  Lemma verify_body_ext rec1 rec2 w path d layout_env keys step_name params inter :
+    agree_below rec1 rec2 d ->
+    verify_body rec1 w path d layout_env keys step_name params inter = verify_body rec2 w path d layout_env keys step_name params inter.
+  Proof.
+    intro Hag. unfold Pipeline.verify_body.
+    destruct (verify_layout_signatures vsig layout_env keys); try reflexivity.
+    destruct (get_layout layout_env) as [l0|c|p]; try reflexivity.
+    destruct (expiry_ok (l_expires l0)); try reflexivity.
+    destruct (subst l0 params) as [l|c|p]; try reflexivity.
+    destruct (certs_ok l inter); try reflexivity.
+    destruct (load_all l (ld_files d)) as [loaded|c|p]; try reflexivity.
+    destruct (verify_thresholds l inter loaded) as [verified|c|p]; try reflexivity.
+    unfold Pipeline.after_thresholds. rewrite (sub_steps_ext rec1 rec2 _ _ _ _ _ _ _ Hag). reflexivity.
+  Qed.
+
+  (* what the threshold stage must guarantee for the bound to hold: from an empty directory no layout-typed
+     link is counted (model/Threshold.v: every counted link was loaded from a listed file) *)
+  Definition empty_dir_no_layouts : Prop :=
+    forall l inter loaded verified, load_all l [] = Ok loaded -> verify_thresholds l inter loaded = Ok verified ->
+      no_layout_links verified.
+
+  Lemma verify_body_empty_dir rec1 rec2 w path layout_env keys step_name params inter :
+    empty_dir_no_layouts ->
+    verify_body rec1 w path (LinkDir [] []) layout_env keys step_name params inter =
+    verify_body rec2 w path (LinkDir [] []) layout_env keys step_name params inter.
+  Proof.
+    intro He. unfold Pipeline.verify_body.
+    destruct (verify_layout_signatures vsig layout_env keys); try reflexivity.
+    destruct (get_layout layout_env) as [l0|c|p]; try reflexivity.
+    destruct (expiry_ok (l_expires l0)); try reflexivity.
+    destruct (subst l0 params) as [l|c|p]; try reflexivity.
+    destruct (certs_ok l inter); try reflexivity.
+    simpl ld_files.
+    destruct (load_all l []) as [loaded|c|p] eqn:Hl; try reflexivity.
+    destruct (verify_thresholds l inter loaded) as [verified|c|p] eqn:Ht; try reflexivity.
+    unfold Pipeline.after_thresholds. rewrite !sub_steps_no_layout by (eapply He; eassumption). reflexivity.
+  Qed.
+
+  Lemma lookup_subdir_depth d dirn :
+    lookup_subdir d dirn = LinkDir [] [] \/ (ld_depth (lookup_subdir d dirn) < ld_depth d)%nat.
+  Proof.
+    unfold lookup_subdir. destruct d as [files subs]. simpl ld_subdirs.
+    induction subs as [|[n x] r IH]; simpl; [left; reflexivity|].
+    destruct (str_eqb n dirn).
+    - right. simpl. lia.
+    - destruct IH as [IH|IH]; [left; exact IH | right]. simpl in *. lia.
+  Qed.
+
+  Theorem verify_fuel_stable : empty_dir_no_layouts ->
+    forall f1 f2 d, (ld_depth d < f1)%nat -> (ld_depth d < f2)%nat ->
+    forall w path layout_env keys step_name params inter,
+      verify f1 w path d layout_env keys step_name params inter = verify f2 w path d layout_env keys step_name params inter.
+  Proof.
+    intro He. induction f1 as [|f1 IH]; intros f2 d H1 H2; [lia|].
+    destruct f2 as [|f2]; [lia|]. intros w path layout_env keys step_name params inter.
+    rewrite !verify_unfold. apply verify_body_ext. intros dirn w' p e ks sn ps it.
+    assert (Hd : (1 <= ld_depth d)%nat) by (destruct d; simpl; lia).
+    destruct (lookup_subdir_depth d dirn) as [Hempty|Hlt].
+    - rewrite Hempty. destruct f1 as [|f1']; [lia|]. destruct f2 as [|f2']; [lia|].
+      rewrite !verify_unfold. apply verify_body_empty_dir. exact He.
+    - apply IH; lia.
+  Qed.
+
 End P.
